@@ -293,6 +293,22 @@ CLAIMED["C17"] = (
     "DESIGN.md section 6 C17",
 )
 
+CLAIMED["C24"] = (
+    "Operation histories (add subdomain in any order, add interface with either pair order, remove subdomain, "
+    "replace subdomain by a copy) over the real grids and mortar grids of a 2-fracture md-grid (dims 2,1,1,0) are "
+    "enumerated / sampled and run on the real MixedDimensionalGrid, with the grid, replacement and interface "
+    "ids replaced by DISTINCT SYMBOLIC integers: the sorting code forks on id comparisons, so every id order is "
+    "explored and z3 decides sortedness (decreasing dimension, then increasing id) for all id values. After "
+    "every operation: each present object listed exactly once, interface <-> (higher, lower) subdomain pair maps "
+    "in both directions, subdomain-to-interfaces, removal deletes exactly the removed subdomain's interfaces and "
+    "boundary grid, one boundary grid per positive-dimensional subdomain, dimension filters, and no admissible "
+    "operation raises.",
+    "Histories of length <= 3 exhaustive, 4 (quick) / 5 (thorough) sampled; replacement only of subdomains without "
+    "attached interfaces (mortar re-matching is C26); 2-d md-grid.",
+    "symbolic execution of the container with symbolic grid ids + SMT; case split on histories",
+    "DESIGN.md section 6 C24",
+)
+
 NOT_APPLICABLE = {
     "C11": "MPFA local systems are inverted in LAPACK/numba kernels on data-dependent block structures; a symbolic inverse of the interaction-region blocks is beyond z3/cvc5 and with concrete matrices nothing quantified remains for a solver.",
     "C13": "MPSA: same obstacle as C11 with 2-3x larger local systems.",
